@@ -395,6 +395,29 @@ def _hist_worker(job):
 DEEP_ROOTS = ["OFX", "INVSTMTMSGSRSV1", "INVSTMTTRNRS", "INVSTMTRS", "BANKMSGSRSV1", "SECLISTMSGSRSV1", "PROFMSGSRSV1", "SIGNUPMSGSRSV1", "BILLPAYMSGSRSV1"]
 
 
+def deep_statement(serial, nbuy, npos):
+    """A complete investment statement response, 8 aggregate levels deep (OFX > INVSTMTMSGSRSV1 > INVSTMTTRNRS > INVSTMTRS >
+    INVTRANLIST > BUYSTOCK > INVBUY > INVTRAN), different for every serial."""
+    U = M.universe()
+    buys = []
+    for n in range(nbuy):
+        b = M.minimal(U["BUYSTOCK"])
+        b["kw"]["invbuy"]["kw"]["invtran"]["kw"]["fitid"] = ["str", "%04d%04d" % (serial, n)]
+        b["kw"]["invbuy"]["kw"]["invtran"]["kw"]["memo"] = ["str", "buy %d of thread %d" % (n, serial)]
+        buys.append(b)
+    tl = M.minimal(U["INVTRANLIST"])
+    tl["list"] = buys
+    rs = M.minimal(U["INVSTMTRS"])
+    rs["kw"]["invtranlist"] = tl
+    if npos:
+        rs["kw"]["invposlist"] = {"cls": "INVPOSLIST", "kw": {}, "list": [M.minimal(U["POSSTOCK"]) for _ in range(npos)]}
+    trn = M.minimal(U["INVSTMTTRNRS"])
+    trn["kw"]["invstmtrs"] = rs
+    trn["kw"]["trnuid"] = ["str", "T%d" % serial]
+    ms = {"cls": "INVSTMTMSGSRSV1", "kw": {}, "list": [trn]}
+    return {"cls": "OFX", "kw": {"signonmsgsrsv1": M.minimal(U["SIGNONMSGSRSV1"]), "invstmtmsgsrsv1": ms}, "list": []}
+
+
 def _thread_worker(job):
     H.setup_path()
     names, n, seed = job
@@ -417,8 +440,11 @@ def _thread_worker(job):
             deep = st.sampled_from([x for x in DEEP_ROOTS if x in U])
             loads = []
             for i in range(draw(st.sampled_from([12, 16]))):
-                inst = draw(deep.flatmap(lambda nm: M.instance_st(U[nm], max_members=3, markup=False, p0=0.9)))
-                loads.append([{"kind": draw(st.sampled_from(["tree", "wire"])), "inst": inst, "form": draw(st.integers(0, 5))}])
+                if draw(st.integers(0, 3)) == 0:
+                    inst = draw(deep.flatmap(lambda nm: M.instance_st(U[nm], max_members=3, markup=False, p0=0.9)))
+                else:
+                    inst = deep_statement(i, draw(st.integers(2, 8)), draw(st.integers(0, 4)))
+                loads.append([{"kind": draw(st.sampled_from(["tree", "tree", "wire"])), "inst": inst, "form": draw(st.integers(0, 5))}])
             return {"kind": "threads", "loads": loads, "rounds": 3, "deep": True}
         if draw(st.booleans()):
             # first-use variant: every thread starts with an item of the shared class, in a fresh interpreter
